@@ -28,7 +28,7 @@ ASSUMPTIONS = ["exception classes are compared by subclass relation (e.g. IndexE
                "assigned values of another dtype are small non-negative integers so the cast is defined",
                "a result that is a memmap or based on one is reported without touching its memory"]
 EXHAUSTIVE = None
-MUST_HIT = ['idx:indexobj', 'zero-extent-in-non-first-axis', 'mode:r/ctx:r+', 'mode:r+/ctx:r+', 'mode:r/ctx:None', 'mode:r+/ctx:r', 'ctx:nested-mixed-modes', 'ctx:live-iterator', 'write:readonly', 'setmode', 'idx:pybool', 'iter:close', 'iter:drop', 'iter:exhaust', 'idx:npint', 'idx:mask', 'idx:fullmask', 'idx:intarr', 'idx:none', 'idx:ell', 'idx:int-out-of-range', 'failed-write', 'failed-read',
+MUST_HIT = ['array-from-create_temparray', 'idx:indexobj', 'zero-extent-in-non-first-axis', 'mode:r/ctx:r+', 'mode:r+/ctx:r+', 'mode:r/ctx:None', 'mode:r+/ctx:r', 'ctx:nested-mixed-modes', 'ctx:live-iterator', 'write:readonly', 'setmode', 'idx:pybool', 'iter:close', 'iter:drop', 'iter:exhaust', 'idx:npint', 'idx:mask', 'idx:fullmask', 'idx:intarr', 'idx:none', 'idx:ell', 'idx:int-out-of-range', 'failed-write', 'failed-read',
             'empty-array', 'ctx:none', 'ctx:open', 'ctx:nested', 'write:otherdt', 'write:row', 'idx:badtype', 'idx:too-many',
             'write:mask']
 
@@ -114,7 +114,8 @@ def st_case(draw):
         elif c == 'iterclose':
             ops.append({'k': 'iterclose', 'how': draw(st.sampled_from(['close', 'drop', 'exhaust']))})
         ops.append(a_)
-    return {'dt': draw(gens.st_dt()), 'shape': shape, 'seed': draw(st.integers(0, 2 ** 31)), 'ops': ops, 'mode': mode}
+    return {'dt': draw(gens.st_dt()), 'shape': shape, 'seed': draw(st.integers(0, 2 ** 31)), 'ops': ops, 'mode': mode,
+            'via': draw(st.sampled_from([None, None, None, 'temparray']))}
 
 
 class _Row:
@@ -215,8 +216,19 @@ def execute(ctx, spec):
         if 0 in shape[1:]:
             out.cls('zero-extent-in-non-first-axis')
         # (an explicit chunk length: the default one is computed by dividing by the row size)
+        tcm = None
         try:
-            a = darr.asarray(path, ref, accessmode=spec['mode'], **({'chunklen': 2} if 0 in shape[1:] else {}))
+            if spec.get('via') == 'temparray' and ref.shape[0] > 0 and 0 not in shape[1:]:
+                # the array comes from create_temparray (a context manager that removes it at the end) and is filled by assignment
+                out.cls('array-from-create_temparray')
+                tcm = darr.create_temparray(shape=shape, dtype=dt, chunklen=2, accessmode='r+', report=False)
+                a = tcm.__enter__()
+                a[...] = ref
+                path = str(a.path)
+                if spec['mode'] == 'r':
+                    a.accessmode = 'r'
+            else:
+                a = darr.asarray(path, ref, accessmode=spec['mode'], **({'chunklen': 2} if 0 in shape[1:] else {}))
         except Exception as e:
             out.viol('create-raised', f'asarray:{type(e).__name__}', f'asarray of shape {shape} in mode {spec["mode"]}: {type(e).__name__}: {e}')
             return out
@@ -455,6 +467,12 @@ def execute(ctx, spec):
                 if got.tobytes() != cp.tobytes():
                     out.viol('result-changed-after-file-overwrite', 'get', 'a previously returned array changed when the file was overwritten')
                     break
+        if tcm is not None:
+            a = None
+            try:
+                tcm.__exit__(None, None, None)
+            except Exception as e:
+                out.viol('context-raised', f'create_temparray-exit:{type(e).__name__}', f'{type(e).__name__}: {e}')
     out.nontrivial = nontriv
     return out
 
@@ -476,6 +494,7 @@ def fixed_specs():
             base = {'dt': {'t': t, 'bo': bo}, 'shape': shape, 'seed': 12}
             for via in ('ctx', 'iter'):
                 yield dict(base, mode='r', ops=[W, {'k': 'enter', 'via': via, 'mode': 'r+'}, W] + R + [X, W])
+                yield dict(base, mode='r+', via='temparray', ops=R + [W, {'k': 'get', 'idx': {'t': 'int', 'v': 99}}, {'k': 'enter', 'via': via, 'mode': None}] + R + [X, W] + R)
                 yield dict(base, mode='r', ops=[{'k': 'enter', 'via': via, 'mode': None}] + R + [W, X] + R)
                 yield dict(base, mode='r+', ops=[{'k': 'enter', 'via': via, 'mode': 'r'}] + R + [{'k': 'enter', 'via': 'ctx', 'mode': 'r+'}, W, X, X, W] + R)
                 yield dict(base, mode='r+', ops=[{'k': 'enter', 'via': via, 'mode': 'r'}, W, X, {'k': 'setmode', 'm': 'r'}, W, {'k': 'setmode', 'm': 'r+'}, W])
